@@ -10,6 +10,8 @@
       a fresh one (`slotKeyTable`, 18 rows: did the second access reuse the object?) — equals `Threads.Ctx.hit .thread`
       (`Model/ThreadsCtx.lean`; closed form `LccModel.C15Ctx.hit_iff_same_os_thread`: the slot belongs to the OS thread,
       not to the context; a context-keyed slot differs on 8 rows).
+    * `FixtureRegistry.check_fixtures_in_suites` on real `Suite` objects using `g` themselves, enabled / marked disabled /
+      nested in a suite marked disabled (`suiteUseTable`, 42 rows) equals `suiteUseVerdict`: the verdict ignores `disabled`.
   `Generated/C15Tables.lean` is written by harness/props/c15.py (`tables`).
 -/
 import LccModel.Model.FixtureDecl
@@ -32,6 +34,16 @@ theorem pair_table_complete (fs : Scope) (fpt : Bool) (gs : Scope) (gpt : Bool)
     (hf : declAllowed fs fpt = true) (hg : declAllowed gs gpt = true) :
     (fs, fpt, gs, gpt) ∈ pairTable.map (·.1) := by
   cases fs <;> cases fpt <;> cases gs <;> cases gpt <;> first | decide | (simp [declAllowed] at hf hg)
+
+/-- the table obtained by executing the real `check_fixtures_in_suites` on real `Suite` objects — a suite using `g`
+    itself (injected attribute / `setup_suite` argument), enabled, marked disabled, or inside a suite marked disabled,
+    for every declarable (scope, per_thread) of `g` — equals the model (closed form `C15V.suite_use_decision_table`) -/
+theorem suite_use_table_agrees :
+    ∀ r ∈ suiteUseTable, suiteUseVerdict r.1.1 r.1.2.1 r.1.2.2.1 r.1.2.2.2 = r.2 := by decide
+
+theorem suite_use_table_complete (st : SuiteState) (how : SuiteHow) (gs : Scope) (gpt : Bool)
+    (hg : declAllowed gs gpt = true) : (st, how, gs, gpt) ∈ suiteUseTable.map (·.1) := by
+  cases st <;> cases how <;> cases gs <;> cases gpt <;> first | decide | (simp [declAllowed] at hg)
 
 theorem slot_key_table_agrees :
     ∀ r ∈ slotKeyTable, Threads.Ctx.hit .thread r.1.1 r.1.2.1 r.1.2.2 = r.2 := by decide
